@@ -292,7 +292,7 @@ def check(rep, tier):
     from vlib import statecensus
     statecensus.obligations(rep, 'C01', 'parser')
     from vlib import preproc
-    preproc.obligation(rep, 'C01', tier, dialects=('mindsdb', 'mysql', 'sqlite'))
+    preproc.obligation(rep, 'C01', tier, dialects=('mindsdb', 'mysql', 'sqlite'), lead_semicolons=True)
     rep.dropped = 'ASTNode.to_string & helpers read with ast.parse; encoders via vlib/codec.py; token tables and productions from the imported classes'
     rep.assume('C04 assumptions for leaf obligations', 'L3 is representative (bounded): one sentence per production does not cover context interaction')
     rep.trust('fst back end', 'pysym executor', 'lrtab sentence generator')
